@@ -6,7 +6,7 @@ import AioProps.C07Lemmas
 All theorems quantify over **every label sequence** `ls` (every interleaving, at await
 granularity, of spawns, single event-loop callbacks, connection attempts succeeding or failing,
 cancellations, connect timeouts, releases, lost idle connections, connector close, shuffle
-results and returns of trace callbacks) from the initial state of any number of tasks with any
+results, returns of trace callbacks, passage of time and firings of the keep-alive sweep) from the initial state of any number of tasks with any
 keys, any limits and any set `mask` of trace hooks whose callbacks really suspend
 (on_connection_reuseconn / queued_start / queued_end / create_start / create_end).
 
@@ -20,21 +20,21 @@ namespace Aio.C07
 /-- **limit_inv.** After every label sequence the number of entries of `_acquired` (connections in
 use + placeholders of connections being established) is at most `limit` (0 = unlimited) and, for
 every key, the number of entries of `_acquired_per_host[key]` is at most `limit_per_host`. -/
-theorem limit_inv (limit lph mask : Nat) (keys : List Key) (ls : List Label) :
-    let s := run Fixes.all (init limit lph keys mask) ls
+theorem limit_inv (limit lph mask ka : Nat) (keys : List Key) (ls : List Label) :
+    let s := run Fixes.all (init limit lph keys mask ka) ls
     (s.limit = 0 ∨ s.acquired.length ≤ s.limit) ∧ (s.lph = 0 ∨ ∀ k, hostCount s k ≤ s.lph) := by
-  have h := (inv_run (inv_init limit lph keys mask).1 (inv_init limit lph keys mask).2 ls).1
+  have h := (inv_run (inv_init limit lph keys mask ka).1 (inv_init limit lph keys mask ka).2 ls).1
   exact ⟨h.lim, h.limh⟩
 
 /-- **attempts are counted.** While the connector is open, every task that is establishing a connection
 has its placeholder in `_acquired` (and in `_acquired_per_host` under its key when a per-host limit
 is set): the count bounded by `limit_inv` really includes every connection attempt in progress. -/
-theorem attempts_counted (limit lph mask : Nat) (keys : List Key) (ls : List Label) (t : Tid) (r : Option Bool) :
-    let s := run Fixes.all (init limit lph keys mask) ls
+theorem attempts_counted (limit lph mask ka : Nat) (keys : List Key) (ls : List Label) (t : Tid) (r : Option Bool) :
+    let s := run Fixes.all (init limit lph keys mask ka) ls
     s.closed = false → pcOf s t = some (.creating r) →
       Slot.ph t ∈ s.acquired ∧ (s.lph ≠ 0 → (keyOf s t, Slot.ph t) ∈ s.perHost) := by
   intro s hc hp
-  exact (inv_run (inv_init limit lph keys mask).1 (inv_init limit lph keys mask).2 ls).1.ph_present hc t r hp
+  exact (inv_run (inv_init limit lph keys mask ka).1 (inv_init limit lph keys mask ka).2 ls).1.ph_present hc t r hp
 
 /-- a request is live while it is queued to start, waits for a slot, establishes or holds a connection -/
 def Pc.live : Pc → Prop
@@ -44,11 +44,11 @@ def Pc.live : Pc → Prop
 /-- **no_leak.** In any reachable state in which no request is live (every task has not started, has
 released its connection, or has failed / was cancelled / timed out) nothing remains counted:
 `_acquired`, `_acquired_per_host` and the waiter queues are empty.  (Quiescence is not even needed.) -/
-theorem no_leak (limit lph mask : Nat) (keys : List Key) (ls : List Label) :
-    let s := run Fixes.all (init limit lph keys mask) ls
+theorem no_leak (limit lph mask ka : Nat) (keys : List Key) (ls : List Label) :
+    let s := run Fixes.all (init limit lph keys mask ka) ls
     (∀ t pc, pcOf s t = some pc → ¬ pc.live) → s.acquired = [] ∧ s.perHost = [] ∧ s.waitq = [] := by
   intro s hdead
-  have h := inv_run (inv_init limit lph keys mask).1 (inv_init limit lph keys mask).2 ls
+  have h := inv_run (inv_init limit lph keys mask ka).1 (inv_init limit lph keys mask ka).2 ls
   refine ⟨?_, ?_, ?_⟩
   · apply List.eq_nil_iff_forall_not_mem.mpr
     intro sl hm
@@ -87,15 +87,15 @@ whose on_connection_create_end callback has not returned yet (it is listed in th
 closes it as soon as that callback returns or is cancelled) —, nothing is counted in `_acquired` /
 `_acquired_per_host`, the idle pool is empty and no waiter future is queued any more (close cancelled
 every one of them, and nobody can queue on a closed connector). -/
-theorem close_closes_all (limit lph mask : Nat) (keys : List Key) (ls : List Label) :
-    let s := run Fixes.all (init limit lph keys mask) ls
+theorem close_closes_all (limit lph mask ka : Nat) (keys : List Key) (ls : List Label) :
+    let s := run Fixes.all (init limit lph keys mask ka) ls
     s.closed = true →
       (∀ (c : Cid) (x : Conn), s.conns[c]? = some x → c ∉ s.pendingNew → x.isOpen = false)
       ∧ s.acquired = [] ∧ s.perHost = [] ∧ s.idle = [] ∧ s.waitq = [] := by
   intro s hc
-  have hi := inv_run (inv_init limit lph keys mask).1 (inv_init limit lph keys mask).2 ls
-  have ho := oinv_run (inv_init limit lph keys mask).1 (inv_init limit lph keys mask).2
-    (oinv_init limit lph keys mask).1 (oinv_init limit lph keys mask).2 ls
+  have hi := inv_run (inv_init limit lph keys mask ka).1 (inv_init limit lph keys mask ka).2 ls
+  have ho := oinv_run (inv_init limit lph keys mask ka).1 (inv_init limit lph keys mask ka).2
+    (oinv_init limit lph keys mask ka).1 (oinv_init limit lph keys mask ka).2 ls
   obtain ⟨e1, e2, e3⟩ := hi.1.closed_empty hc
   refine ⟨?_, e1, e2, e3, ho.2 hc⟩
   intro c x hx hp
@@ -117,11 +117,62 @@ example :
       ∧ s.tasks.map (·.pc) = [.done, .holding 0, .failed .closedErr, .failed .cancelled] := by
   decide +kernel
 
+/-- **conservation.** In every reachable state every connection the connector ever created is closed, or idle
+in the pool, or counted in `_acquired`, or still in `connect()`'s hands inside an on_connection_create_end callback:
+no open connection ever drops out of the connector's bookkeeping (so `close()` reaches every one of them —
+`close_closes_all`).  This covers `_get` (drops and closes lost/expired idle connections), `_release`, the
+keep-alive sweep `_cleanup`, cancellation at every await and close. -/
+theorem every_open_connection_tracked (limit lph mask ka : Nat) (keys : List Key) (ls : List Label) (c : Cid) :
+    let s := run Fixes.all (init limit lph keys mask ka) ls
+    connOpen s c = true → c ∈ s.idle ∨ Slot.conn c ∈ s.acquired ∨ c ∈ s.pendingNew :=
+  (oinv_run (inv_init limit lph keys mask ka).1 (inv_init limit lph keys mask ka).2
+    (oinv_init limit lph keys mask ka).1 (oinv_init limit lph keys mask ka).2 ls).1 c
+
+/-- **the keep-alive sweep partitions the idle pool** (`_cleanup`, any state, any time): the rebuilt pool and the
+set of closed entries together are exactly the old pool — the survivors are the reusable entries in their old order,
+every other entry is closed, nothing is dropped; connections outside the pool are untouched. -/
+theorem cleanup_partitions (s : St) :
+    (cleanup s).idle = s.idle.filter (usable s)
+    ∧ (∀ c ∈ s.idle, (c ∈ (cleanup s).idle ∧ connOpen (cleanup s) c = connOpen s c) ∨
+                      (c ∉ (cleanup s).idle ∧ connOpen (cleanup s) c = false))
+    ∧ (cleanup s).idle.length + (s.idle.filter (fun c => !usable s c)).length = s.idle.length
+    ∧ (∀ c, c ∉ s.idle → connOpen (cleanup s) c = connOpen s c)
+    ∧ (cleanup s).acquired = s.acquired := by
+  refine ⟨rfl, ?_, ?_, ?_, rfl⟩
+  · intro c hc
+    cases hu : usable s c
+    · right
+      refine ⟨fun h => ?_, ?_⟩
+      · have := (List.mem_filter.mp h).2; rw [hu] at this; cases this
+      · show connOpen (closeMany _ _) c = false
+        rw [connOpen_closeMany, if_pos (List.mem_filter.mpr ⟨hc, by simp [hu]⟩)]
+    · left
+      refine ⟨List.mem_filter.mpr ⟨hc, hu⟩, ?_⟩
+      show connOpen (closeMany _ _) c = _
+      rw [connOpen_closeMany, if_neg (fun h => by have := (List.mem_filter.mp h).2; simp [hu] at this)]
+      rfl
+  · show (s.idle.filter (usable s)).length + _ = _
+    induction s.idle with
+    | nil => rfl
+    | cons a t ih => cases h : usable s a <;> simp [List.filter_cons, h] <;> omega
+  · intro c hc
+    show connOpen (closeMany _ _) c = _
+    rw [connOpen_closeMany, if_neg (fun h => hc (List.mem_filter.mp h).1)]
+    rfl
+
+/-- a sweep that really partitions: three idle connections released at times 0, 4 and 8 with keep-alive 10; at
+time 12 the first one has expired, the other two stay (in order) -/
+example :
+    let s := run Fixes.all (init 3 0 [0, 0, 0] 0 10)
+      [.spawn 0, .spawn 1, .spawn 2, .tick, .tick, .tick, .createDone 0 true, .createDone 1 true, .createDone 2 true,
+       .tick, .tick, .tick, .release 0 true, .advance 4, .release 1 true, .advance 4, .release 2 true, .advance 4, .sweep]
+    s.idle = [1, 2] ∧ s.conns.map (·.isOpen) = [false, true, true] ∧ s.timer = true := by decide +kernel
+
 /-
 **no_forgotten_waiter** (full statement, NOT proved):
 
   theorem no_forgotten_waiter (limit lph) (keys) (ls) (t) :
-      let s := run Fixes.all (init limit lph keys mask) ls
+      let s := run Fixes.all (init limit lph keys mask ka) ls
       s.ready = [] → t ∈ s.waitq → futOf s t = .pending → hasCap s (keyOf s t) = false
 
 i.e. in every reachable quiescent state no live waiter has capacity for its key.  It is false for
